@@ -286,8 +286,11 @@ impl BobState {
     }
 
     /// Consume self and get the [`SyncOutcome`] for this connection.
+    ///
+    /// If [`Self::run`] failed while a message was being processed the progress made up to
+    /// that message is not available, and the default outcome is returned.
     pub fn into_outcome(self) -> SyncOutcome {
-        self.progress.unwrap()
+        self.progress.unwrap_or_default()
     }
 }
 
